@@ -176,6 +176,11 @@ def gen_body(rng, fs, own_params, callees, modes_pool, top=False):
     for _ in range(rng.randint(1, 5)):
         stmts.append(gen_op(rng, modes_pool, own_params, vars_))
     for c in callees:
+        if not top and not c["params"] and rng.random() < 0.3:
+            # a library applying a parameter-free subroutine to its own modes, twice
+            for _ in range(2):
+                stmts.append({"k": "call", "prog": c["name"], "kwargs": None,
+                              "modes": [{"m": m} for m in c["modes"]], "style": rng.choice([1, 2])})
         for _ in range(rng.choice([1, 1, 2, 3, 5]) if top else rng.choice([1, 1, 2])):
             call = gen_call(rng, c, own_params, vars_)
             if ivars and rng.random() < 0.5:
